@@ -261,6 +261,13 @@ def execute(st_, ctx):
                             dict(describe(), child=ci, delivered=delivered_uids))
             elif fin == "stop" and len(ys) != len(delivered_uids):
                 out.violate("C09.lost_item", (sig_lock,), dict(describe(), child=ci, delivered=delivered_uids))
+        # the tee fetches an item only when some child needs it: at quiescence the source has delivered exactly as many
+        # items as the most advanced child yielded (one more at most if a consumer was cancelled between fetching and
+        # yielding) - a child that waited at the lock finds the item in its buffer instead of fetching the next one
+        most = max((len(y) for y in st.yields), default=0)
+        if len(delivered) > most + (1 if cancelled_fired else 0):
+            out.violate("C09.source_read_ahead_of_every_child", (sig_lock,),
+                        dict(describe(), delivered=len(delivered), most_advanced_child=most))
         if sc.lock and src.overlaps:
             out.violate("C09.overlap_under_lock", (sig_lock,), describe())
         if st.retention is not None:
